@@ -7,6 +7,24 @@ NOTE_COMMON = ("Trusts go/packages+go/ssa, the engine's instruction semantics, t
                "(differentially tested against the real functions), and the SMT solvers; every counterexample and a sample of "
                "witnesses per run are replayed against the real build (go test -overlay) and their observations compared.")
 claimed = {
+ "C01": dict(
+   text="Bounded symbolic model checking of Document.String -> NewDocumentFromString on the real SSA: every forest shape with up to 3 nodes is an outer case, tags are chosen from an alphabet covering every tag class, and all value bytes, pointer bytes and the BOM flag are solver variables; chains of depth 8..13 and each of the 167 registered tags (root and child) are separate cases. The solver proves that the encoder's text is accepted and decodes to the same nodes (tag, value, pointer, order, nesting, Go type) and BOM flag.",
+   ref="DESIGN.md §3 C01", note=NOTE_COMMON),
+ "C02": dict(
+   text="Bounded symbolic model checking of Decoder.Decode against an independent reference model of the line grammar written from the statement: files of 1..2 (thorough 3) lines with symbolic level digits, value bytes and xref bytes, all terminator / blank / option combinations; the solver proves that every accepted file yields exactly the tree dictated by the levels and that the re-encoded normal form is a fixpoint.",
+   ref="DESIGN.md §3 C02", note=NOTE_COMMON),
+ "C03": dict(
+   text="Bounded symbolic model checking of Decoder.Decode for totality: every input of 0..6 (thorough 8) fully symbolic ASCII bytes, 10 structure-aware hostile templates with symbolic level digits and value bytes, and the C02 grammar files, under all option combinations; every Go run-time check (index, nil, type assertion) is an implicit obligation. The solver proves that each path returns a document or an error naming the line, and that the only panic is the documented indent panic without AllowInvalidIndents.",
+   ref="DESIGN.md §3 C03", note="Process-level behaviour, 1 MB lines and native fuzzing are outside this technique. " + NOTE_COMMON),
+ "C07": dict(
+   text="Bounded symbolic model checking of DeepEqual / DeepCopy on trees of up to 3 (permutation: 7) nodes over 8 node kinds with symbolic values: copy independence, reflexivity up to copying, permutation invariance, symmetry and single-edit sensitivity are assertions over all values. One genuine, non-small defect (order dependence with constrained dates) is a recorded known finding.",
+   ref="DESIGN.md §3 C07", note=NOTE_COMMON),
+ "C08": dict(
+   text="Bounded symbolic model checking of CompareNodes and the NodeDiff operations on pairs of small trees with symbolic values (every Equals pattern among siblings): provenance, coverage, two-sidedness and one-sidedness of entries, all-two-sided diffs for reordered copies, and input purity under every sequence of two diff operations.",
+   ref="DESIGN.md §3 C08", note=NOTE_COMMON),
+ "C09": dict(
+   text="Bounded symbolic model checking of MergeNodes / MergeNodeSlices on small trees and lists with symbolic values and three merge functions: nothing lost, nothing invented, length bounds, each element merged at most once (unique markers), freshness (no shared node, inputs untouched by the merge and by later mutation of the result).",
+   ref="DESIGN.md §3 C09", note=NOTE_COMMON),
  "C04": dict(
    text="Bounded symbolic model checking of NewDateRangeWithString, Date.String/DateRange.String/DateNode.String on the real SSA (the repo's own regular expressions run through a ported backtracking matcher): every keyword spelling x letter case x month spelling x shape x range form is an outer case and all day and year digits are solver variables, so each case covers every day 0..99 and every year 1..9999 at once. The solver proves that in-grammar sentences parse to the fields as written (both range ends), that calendar-impossible days and undocumented forms are invalid, that printing gives the canonical spelling and that re-parsing gives the same start and end.",
    ref="DESIGN.md §3 C04", note=NOTE_COMMON),
